@@ -87,6 +87,12 @@ theorem C03_leading_line_safe (eol : List Char) (t : List Triv) :
     Semi.lineSafe (load eol .leading t) = true :=
   LineSafe.load_leading_safe eol t
 
+/-- ... and so is the leading trivia of a block's closing token after format_end_token has removed the blank lines:
+`end` / `}` / `)` is never swallowed by a comment in front of it -/
+theorem C03_end_token_line_safe (eol : List Char) (lead : List Triv) :
+    Semi.lineSafe (EndToken.endLeading eol lead) = true :=
+  LineSafe.endLeading_safe eol lead
+
 /-! ## the semicolon: kept, added or removed (format_block) -/
 
 open StyluaModel.Semi in
